@@ -132,6 +132,11 @@ def check_one(case):
     if fam == "batcher":
         n, b, width = case["n"], case["b"], case["w"]
         base = [list(range(k * 1000, k * 1000 + n)) for k in range(max(width, 1))]
+        if (n + b) % 4 == 1:
+            # None and falsy values are elements like any other (also in lock-step inputs)
+            for k, x in enumerate(base):
+                for j in range(k % 3, n, 3):
+                    x[j] = [None, 0, "", False, (), 0.0][(j + k) % 6]
         data = base[0] if width == 0 else tuple(base)
         nb = (n + b - 1) // b
         got = outcome(lambda: len(g.Batcher(data, b)))
@@ -176,6 +181,11 @@ def check_one(case):
     if fam == "batcher-iter":
         n, b, width = case["n"], case["b"], case["w"]
         base = [list(range(k * 1000, k * 1000 + n)) for k in range(max(width, 1))]
+        if (n + b) % 4 == 1:
+            # None and falsy values are elements like any other (also in lock-step inputs)
+            for k, x in enumerate(base):
+                for j in range(k % 3, n, 3):
+                    x[j] = [None, 0, "", False, (), 0.0][(j + k) % 6]
         nb = (n + b - 1) // b
         if width == 0:
             want = [base[0][i * b:(i + 1) * b] for i in range(nb)]
